@@ -139,6 +139,9 @@ class FastHierarchyAnalyzer(HierarchyAnalyzerBase):
 
             # Verify that indeed no selection_choices are left
             if len([node for node in graph.choice_nodes if isinstance(node, SelectionChoiceNode)]) > 0:
+                # If the graph became infeasible no more choices are activated: let the caller try another vector
+                if not graph.feasible:
+                    return tuple(taken_sel_opt), graph
                 raise RuntimeError(f'Selection-choice nodes left for dv: {opt_idx}')
             return tuple(taken_sel_opt), graph
 
